@@ -11,6 +11,7 @@ import (
 	"context"
 	"errors"
 	"fmt"
+	"github.com/cloudwego/hertz/pkg/protocol/http1/resp"
 	"io"
 	"net"
 	"strconv"
@@ -53,12 +54,16 @@ type Scenario struct {
 	Name          string          `json:"name"`
 	Clients       []Client        `json:"clients"`
 	ExitWait      time.Duration   `json:"exit_wait"`
-	Hooks         []time.Duration `json:"hooks"`          // duration each OnShutdown hook blocks
-	ShutdownDelay time.Duration   `json:"shutdown_delay"` // after the engine is running
-	Shutdowns     int             `json:"shutdowns"`      // concurrent Shutdown callers (1 or 2)
-	Again         bool            `json:"again"`          // a further Shutdown after the first returned
-	BeforeRun     bool            `json:"before_run"`     // Shutdown on an engine that was never started
+	Hooks         []time.Duration `json:"hooks"`                  // duration each OnShutdown hook blocks
+	ShutdownDelay time.Duration   `json:"shutdown_delay"`         // after the engine is running
+	Shutdowns     int             `json:"shutdowns"`              // concurrent Shutdown callers (1 or 2)
+	Again         bool            `json:"again"`                  // a further Shutdown after the first returned
+	BeforeRun     bool            `json:"before_run"`             // Shutdown on an engine that was never started
 	ConnectHook   time.Duration   `json:"connect_hook,omitempty"` // the OnAccept and OnConnect hooks block this long each
+	// Poll: the period at which transport.Shutdown looks at the connection count (0: 300 ms); long scenarios use a coarser one
+	Poll time.Duration `json:"poll,omitempty"`
+	// Stream: the handler answers through the chunked body writer (the response head goes out inside the handler)
+	Stream bool `json:"stream,omitempty"`
 	// ShutdownEarly: the Shutdown caller only waits for the engine to report "running" - which Run does before the
 	// transport has created its listener - not for the listener
 	ShutdownEarly bool `json:"shutdown_early,omitempty"`
@@ -189,7 +194,14 @@ type World struct {
 	refused   int
 }
 
-func NewWorld(job Job) *World { return &World{job: job, handled: map[string]handled{}} }
+func NewWorld(job Job) *World {
+	poll := job.Sc.Poll
+	if poll == 0 {
+		poll = 300 * time.Millisecond
+	}
+	standard.SetShutdownTickerForVerif(poll)
+	return &World{job: job, handled: map[string]handled{}}
+}
 
 func (w *World) violate(format string, a ...interface{}) {
 	if len(w.viol) < 8 {
@@ -384,14 +396,17 @@ func (w *World) callShutdown(r *shutdownRec) {
 	// accepted, before Shutdown was called has its complete response by now. (Judged only in executions without early
 	// timer firings: the accept loop counts a connection a few instructions after taking it, which the first ticker
 	// period of Shutdown is there to cover - scheduling slack, not a defect.)
-	if r.err == nil && r.slackFree && r.end-r.start < w.job.Sc.ExitWait {
+	// The same holds for a return with an error other than "engine is not running" (a second caller): the server gave up
+	// waiting although the configured exit wait time was not over.
+	notRunning := r.err != nil && strings.Contains(r.err.Error(), "not running")
+	if !notRunning && r.slackFree && r.end-r.start < w.job.Sc.ExitWait {
 		for i, c := range w.conns {
 			if c == nil || !c.accepted || c.acceptAt >= r.start {
 				continue
 			}
 			for k, t := range c.reqTimes {
 				if t < r.start && !c.complete(k+1) && !c.srvClosed {
-					w.violate("Shutdown returned nil after %v although request %d of client %d - sent at %v on a connection accepted at %v, both before the call at %v - had not been answered yet", r.end-r.start, k, i, t, c.acceptAt, r.start)
+					w.violate("Shutdown returned ("+fmt.Sprint(r.err)+") after %v although request %d of client %d - sent at %v on a connection accepted at %v, both before the call at %v - had not been answered yet", r.end-r.start, k, i, t, c.acceptAt, r.start)
 				}
 			}
 		}
@@ -401,10 +416,31 @@ func (w *World) callShutdown(r *shutdownRec) {
 func (w *World) handler(c context.Context, ctx *app.RequestContext) {
 	id := string(ctx.QueryArgs().Peek("id"))
 	d, _ := strconv.ParseInt(string(ctx.QueryArgs().Peek("d")), 10, 64)
+	entered := w.e.StatusForVerif() != 2
 	if d > 0 {
 		verifrt.Sleep(time.Duration(d))
 	}
 	ctx.SetStatusCode(200)
+	if w.job.Sc.Stream {
+		ctx.Response.HijackWriter(resp.NewChunkedBodyWriter(&ctx.Response, ctx.GetWriter()))
+		ctx.Write([]byte("ok:" + id)) //nolint:errcheck
+		ctx.Flush()                   //nolint:errcheck
+		verifrt.Point("handler-return")
+		// the head went out inside the handler: only a request that arrived after shutdown had begun can be told (one that
+		// is dispatched while Shutdown flips the status may or may not see it: not demanded)
+		late := false
+		var ci, ri int
+		if _, err := fmt.Sscanf(id, "c%dr%d", &ci, &ri); err == nil && ci < len(w.conns) && w.conns[ci] != nil && ri < len(w.conns[ci].reqTimes) {
+			for _, r := range w.shutdowns {
+				if r.called && r.start < w.conns[ci].reqTimes[ri] {
+					late = true
+				}
+			}
+		}
+		_ = entered
+		w.handled[id] = handled{afterFlip: late}
+		return
+	}
 	ctx.Response.SetBodyString("ok:" + id)
 	verifrt.Point("handler-return")
 	h := handled{afterFlip: w.e.StatusForVerif() != 2}
